@@ -9,7 +9,8 @@
        the rejects are complete), possibly more (run-ahead);
      * undoing what it applied beyond F leaves exactly the state after its file patches of patches <= F.
    The two comparison operators (`index > earliest` to stop, `index <= final_patch` to end the undoing)
-   are read from parallel.rs into Params.v; the instantiation below only type-checks while they are > and <=.
+   and the way a failing index is published (fetch_min) are read from parallel.rs into Params.v; the
+   instantiation below only type-checks while they are >, <= and an atomic minimum.
    PARTIAL: that workers own disjoint files is C07 (proved); that apply/undo on a worker's files are
    ModifiedFiles-level inverses is C04 (C04_tree_plain / C04_tree_rename, proved); the composition of these
    with the L3 push (save phase, rejects, backups per worker) into 'tree equal to the sequential tree' is not
@@ -24,7 +25,7 @@ Theorem C06_every_schedule :
   (forall s t, undo (fst (run s t)) t = s) ->
   forall (n : nat) (specs : list (wspec St T)) (sched : list nat),
   Forall (fun sp => sorted T idx (ws_tasks St T sp)) specs ->
-  let c := exec St T run idx (sched) (init St T n specs) in
+  let c := exec St T run idx n sched (init St T n specs) in
   finished St T c ->
   earliest St T c = F_of St T run idx n specs /\
   Forall2 (fun sp w =>
@@ -34,7 +35,7 @@ Theorem C06_every_schedule :
           specs (workers St T c).
 Proof.
   intros St T run undo idx Hundo n specs sched.
-  exact (parallel_final St T run undo idx Hundo n eq_refl eq_refl specs sched).
+  exact (parallel_final St T run undo idx Hundo n eq_refl eq_refl eq_refl specs sched).
 Qed.
 Print Assumptions C06_every_schedule.
 
@@ -45,7 +46,7 @@ Definition ex_specs : list (wspec (list nat) (nat * bool)) :=
   [ {| ws_init := []; ws_tasks := [(0, false); (1, true); (4, false)] |};
     {| ws_init := []; ws_tasks := [(0, false); (2, false); (3, false); (5, false)] |} ].
 Definition ex_sched : list nat := [1;1;1;1;1;1; 0;0;0;0; 1;1;1; 0;0; 1;1].
-Definition ex_final := exec (list nat) (nat * bool) ex_run fst ex_sched (init (list nat) (nat * bool) 6 ex_specs).
+Definition ex_final := exec (list nat) (nat * bool) ex_run fst 6 ex_sched (init (list nat) (nat * bool) 6 ex_specs).
 
 Example C06_run_ahead_schedule_finishes :
   forallb (fun w => match w_pc _ _ w with PStop => true | _ => false end) (workers _ _ ex_final) = true /\
